@@ -824,8 +824,22 @@ pub fn generate(r: &mut Rng, opts: &GenOpts) -> Universe {
                     _ => child_name("www", &tz_apex),
                 }
             };
+            // sometimes the alias points at another zone's apex (whose NS set the
+            // resolver will have cached) ...
+            let target = if opts.cross_zone_cnames && target_zone != zi && r.chance(0.2) {
+                tz_apex.clone()
+            } else {
+                target
+            };
             let t = ttl_of(r);
             u.zones[zi].records.push(Rec::new(&owner, &format!("CNAME {target}"), t));
+            // ... and sometimes a name exists BENEATH the alias owner (an alias says
+            // nothing about the names below it)
+            if opts.cross_zone_cnames && r.chance(0.25) {
+                let below = child_name("below", &owner);
+                let addr = alloc.v4();
+                u.zones[zi].records.push(Rec::new(&below, &format!("A {addr}"), ttl_of(r)));
+            }
         }
     }
     u
